@@ -174,7 +174,7 @@ Lemma kfor_step O K run c st bd n err l :
       | Some true =>
           match run err l bd with
           | (l1, KNorm l1' e1) =>
-              match run e1 l1' st with
+              match run e1 (firstn (List.length l) l1') st with
               | (l2, KNorm l2' e2) => let (l3, r) := kfor O K run c st bd n e2 l2' in ((l1 ++ l2 ++ l3)%list, r)
               | (l2, r) => ((l1 ++ l2)%list, r)
               end
